@@ -22,6 +22,11 @@ def shapes(r):
         ('unnest', {'kind': ('select', [('expr', ('fld', 'a', 0)), ('unnest', ('list', [('fld', 'a', 1), ('lit', 'u')]), 'UNNEST')]), 'where': None, 'join': None}),
         ('update', {'kind': ('update', [(1, ('add', ('fld', 'a', 1), ('lit', '!')))]), 'where': ('ne', ('fld', 'a', 0), ('lit', 'm')), 'join': None}),
         ('top', {'kind': ('select', [('expr', ('fld', 'a', 1))]), 'where': None, 'join': None, 'top': 2}),
+        # joins with SEVERAL matches per input record: a refusal in the middle of a group of matches must stop the inner loop too
+        ('join_multi', {'kind': ('select', [('expr', ('fld', 'a', 0)), ('expr', ('fld', 'b', 1))]), 'where': None,
+                        'join': {'kind': 'inner', 'spelling': 'join', 'lhs': [0], 'rhs': [0]}}),
+        ('left_join_multi', {'kind': ('select', [('expr', ('fld', 'a', 1)), ('starb',)]), 'where': None,
+                             'join': {'kind': 'left', 'spelling': 'left join', 'lhs': [0], 'rhs': [0]}}),
     ]
 
 
@@ -51,10 +56,14 @@ def engine_cases(ctx, n_tables):
     for _ in range(n_tables):
         A = [[r.choice(['k', 'm', 'z']), r.choice(['a', 'b', 'c'])] for _ in range(r.randint(0, 6))]
         for name, qa in shapes(r):
+            B = None
             total = len(A) * 2 + 2
+            if qa.get('join'):
+                B = [[r.choice(['k', 'm']), 'w%d' % i] for i in range(r.randint(0, 4))]
+                total = len(A) * max(1, len(B)) + 2
             ks = list(range(0, min(total, 9))) if ctx.tier == 'quick' else list(range(0, total + 1))
             for k in [None] + ks:
-                c = ec.make_case(r, dict(qa), [list(x) for x in A], None, fail_at=k, tags=['engine', name])
+                c = ec.make_case(r, dict(qa), [list(x) for x in A], None if B is None else [list(x) for x in B], fail_at=k, tags=['engine', name])
                 c['mode'] = 'engine'
                 out.append(c)
     return out
@@ -66,7 +75,7 @@ def pipe_cases(ctx, n_tables):
     for _ in range(n_tables):
         A = [[r.choice(['k', 'm', 'z']), r.choice(['a', 'b', 'c'])] for _ in range(r.randint(0, 5))]
         for name, qa in shapes(r):
-            if name in ('aggregated', 'distinct_count'):
+            if name in ('aggregated', 'distinct_count') or qa.get('join'):
                 continue            # rows contain ints: the CSV line rendering belongs to the CSV writer model (C10)
             hdr = ['h1', 'h2'] if (r.random() < 0.5 and name in ('streaming_where', 'update')) else None   # output header = input header for * and UPDATE (C07)
             for k in range(0, 2 * (len(A) * 2 + 2) + 1):
